@@ -28,9 +28,11 @@ theorem never_demands_beyond_max (buf : List Byte) (cs : List (List Byte)) :
   omega
 
 /-- a suspended call is woken only to completion or to a suspension in a LATER state or the same
-primitive with more buffered: once `demand` bytes have arrived it does not wait again for them -/
-theorem wakes_when_demand_met (st st' : RState) (buf b more : List Byte)
-    (h : resume st buf = .blocked st' b) (hst : st' ≠ .scanning) (hmore : st'.demand b.length ≤ more.length) :
+primitive with more buffered: once `demand` bytes have arrived it does not wait again for them.
+(For ANY state `st'` past the delimiter hunt and any buffer `b` it may be suspended with; the former hypothesis
+"`st'`, `b` is a suspension of some call" was not used and is dropped.) -/
+theorem wakes_when_demand_met (st' : RState) (b more : List Byte)
+    (hst : st' ≠ .scanning) (hmore : st'.demand b.length ≤ more.length) :
     ∀ b', resume st' (b ++ more) ≠ .blocked st' b' := by
   intro b' hb
   cases st' with
